@@ -55,6 +55,13 @@ CHECKS = {
         "design_ref": "DESIGN.md section 4, C20",
         "note": "trusted: symx, CrossHair, z3, reference traversal and xpath oracles; bounds in evidence",
     },
+    "C08": {
+        "engine": "CrossHair (engine X) + symx (engine P)",
+        "technique": "CrossHair symbolic execution (z3) of the real matcher classes over symbolic-length sequences, ints and strings; symx exploration of grammar-derived patterns x nodes x cache states against a reference matcher with identity-compared captures",
+        "text": "Sequence length / tail / capture rules hold for ALL int sequences up to length 5, value / variable equality for all ints and short strings, regex anchoring for all strings up to 4 chars (CrossHair 'Confirmed over all paths'); every generated pattern (class alternatives, field specs, nested patterns to depth 3, sequences 0-3 with and without tail, captures, variables) on 45 nodes under cold / warm / interleaved cache agrees with the reference in verdict and in the identity of every captured object; MultiPatternMatcher returns the first matching rule for every ordered rule selection. Compiled half: selectors only.",
+        "design_ref": "DESIGN.md section 4, C08",
+        "note": "trusted: CrossHair, z3, symx, oracles/pattern_ref.py (appendix A.4); strings never offered to sequence specs; non-compiling grammatical patterns counted, not judged",
+    },
 }
 NOT_APPLICABLE = {
     "C11": "input is a class definition consumed by typing/abc introspection (get_origin/get_args/get_type_hints/issubclass): no engine can keep an annotation symbolic, every path would be one concrete class definition, i.e. enumeration of concrete runs rather than a solver verdict (DESIGN.md section 5)",
